@@ -58,7 +58,7 @@ type c11obj struct {
 	readers sync.Map     // tx id -> *atomic.Int64 (active read callbacks)
 	dead    atomic.Bool
 	deadBy  atomic.Int64 // transaction that killed it
-	scratch int // plain field: overlapping callbacks of different transactions are a data race
+	scratch int          // plain field: overlapping callbacks of different transactions are a data race
 }
 
 func (o *c11obj) SizeInMemory() int64 { return o.size }
@@ -393,10 +393,9 @@ func (c11) RunCase(c fw.Case, env *fw.Env) *fw.CaseResult {
 		select {
 		case <-done:
 		case <-time.After(20 * time.Second):
-			buf := make([]byte, 1<<20)
-			n := runtime.Stack(buf, true)
-			if wit := fw.DeadlockWitness(string(buf[:n])); wit != "" {
-				w.violate("deadlock", "transactions-stuck", "transactions did not finish within 20 s; goroutine dump shows: "+wit+"\nprograms: "+fmt.Sprint(progsOf(txs))+"\n"+trimStacks(string(buf[:n])))
+			wit, dump := c11Witness()
+			if wit != "" {
+				w.violate("deadlock", "transactions-stuck", "transactions did not finish within 20 s; goroutine dump shows: "+wit+"\nprograms: "+fmt.Sprint(progsOf(txs))+"\n"+trimStacks(dump))
 			} else {
 				res.Inconclusive++
 				res.Note("schedule %d did not finish within 20 s without a deadlock witness", sc)
@@ -420,9 +419,7 @@ func (c11) RunCase(c fw.Case, env *fw.Env) *fw.CaseResult {
 		select {
 		case <-prog:
 		case <-time.After(10 * time.Second):
-			buf := make([]byte, 1<<20)
-			n := runtime.Stack(buf, true)
-			if wit := fw.DeadlockWitness(string(buf[:n])); wit != "" {
+			if wit, _ := c11Witness(); wit != "" {
 				w.violate("lock-not-released", "no-progress-after-finish", "after all transactions committed or aborted, a fresh writing transaction on A and B did not complete within 10 s: "+wit)
 			} else {
 				res.Inconclusive++
@@ -448,6 +445,29 @@ func (c11) RunCase(c fw.Case, env *fw.Env) *fw.CaseResult {
 	cache.VerifHook.Store(nilHook)
 	res.Stat("pause_point_visits", hookCalls.Load())
 	return res
+}
+
+// c11Witness samples all goroutines twice, one second apart (every harness delay is below a
+// millisecond, so whoever is still inside a transaction then is not merely slow). It is a witness
+// when both samples show the same non-empty set of goroutines waiting for a lock inside semadb code
+// and nobody active inside semadb code: either a cycle, or - with a single waiter - a lock whose
+// holder has returned without releasing it.
+func c11Witness() (string, string) {
+	sample := func() (string, string) {
+		buf := make([]byte, 1<<20)
+		n := runtime.Stack(buf, true)
+		return fw.DeadlockWitnessMin(string(buf[:n]), 1), string(buf[:n])
+	}
+	w1, _ := sample()
+	if w1 == "" {
+		return "", ""
+	}
+	time.Sleep(time.Second)
+	w2, d2 := sample()
+	if w2 != w1 {
+		return "", ""
+	}
+	return w2, d2
 }
 
 func progsOf(txs []*c11tx) []string {
